@@ -57,6 +57,9 @@ extern long al_free_null;      /* free(NULL) through the hook */
 extern long al_total_allocs, al_total_frees;
 extern int  al_in_call;        /* set while a library call is in progress */
 extern blk *al_all;
+extern long al_overflow;       /* blocks written beyond their end */
+int al_check_redzones(void);   /* 1 if no live block was written beyond its end */
+extern long al_libc_malloc_calls, al_libc_free_calls, al_libc_realloc_calls;   /* direct libc allocator calls by library code */
 
 void *al_malloc(size_t n);     /* installed as cJSON hook: counts, may fail */
 void  al_free(void *p);
